@@ -85,8 +85,18 @@ def translate():
     reg = find_func(mtree, "register_scope_providers")
     body = [s for s in reg.body if not (isinstance(s, ast.Expr) and isinstance(s.value, ast.Constant))]
     want = ("self.scope_providers = sp", "for k, v in self.scope_providers.items():\n    if isinstance(v, str):\n        self.scope_providers[k] = create_rrel_scope_provider(v)")
-    need(len(body) == 2 and ast.unparse(body[0]) == want[0] and ast.unparse(body[1]) == want[1],
-         "register_scope_providers changed")
+    merge = "for k, v in sp.items():\n    if isinstance(v, str):\n        v = create_rrel_scope_provider(v)\n    self.scope_providers[k] = v"
+    if len(body) == 2 and ast.unparse(body[0]) == want[0] and ast.unparse(body[1]) == want[1]:
+        replaces = True      # the dict of the latest call becomes the meta-model's dict
+    elif len(body) == 1 and ast.unparse(body[0]) == merge:
+        replaces = False     # entries are copied into the dict that is already there: registrations accumulate
+    else:
+        raise TranslateError("register_scope_providers changed")
+    # a fresh meta-model starts with no registered provider
+    init = find_func(mtree, "__init__", cls="TextXMetaModel")
+    need(any(isinstance(n, ast.Assign) and ast.unparse(n) == "self.scope_providers = {}" for n in ast.walk(init)), "a new meta-model does not start with scope_providers = {}")
+    others = [n for n in ast.walk(mtree) if isinstance(n, (ast.Assign, ast.AugAssign)) and "scope_providers" in ast.unparse(n.targets[0] if isinstance(n, ast.Assign) else n.target)]
+    need(len(others) == (3 if replaces else 2), "scope_providers is assigned in %d places in metamodel.py" % len(others))
     # grammar side: RuleCrossRef.__init__ uses create_rrel_scope_provider(rrel_tree)
     ltree, _ = parse_file("textx/lang.py")
     init = find_func(ltree, "__init__", cls="RuleCrossRef")
@@ -109,6 +119,7 @@ def translate():
              "  [" + ";\n   ".join("[" + "; ".join(part(p) for p in key) + "]" for key in keys) + "].",
              "Definition grammar_provider_first : bool := true.",
              "Definition selection_per_reference : bool := true.",
+             "Definition registration_replaces : bool := %s." % ("true" if replaces else "false"),
              "Definition string_registration_parsed_by_grammar_ctor : bool := true."]
     emit("SrcScope", "\n".join(lines) + "\n")
     return []
